@@ -23,7 +23,9 @@ CLAIMED = {
     "C13": ("TLA+ definition of every collection builtin (Coll.tla) as a total operator; TLC enumerates builtin x "
             "argument tuples; each is replayed as (f 'a1 ..) through lisp.EVAL and compared with the allowed outcome",
             "Exhaustive small-scope conformance of 49 builtins against the abstract sequence/map/set model: every "
-            "argument tuple of arity 0..2 over a 33-value pool, arity 3 over a pool prefix (80k-250k calls); value "
+            "argument tuple of arity 0..2 over a 37-value pool, arity 3 over a pool prefix, index sweeps (-1..7) of the "
+            "13 position-taking calls on sequences with spare capacity, purity cases (one value made along 19 construction "
+            "paths passed twice to the same builtin) (100k-300k calls); value "
             "(kind-exact, unordered results as multisets), error where the model says error; the oracle abstains "
             "where README/step files/mal guide are silent; random nested compositions of builtins recorded from the real "
             "code are validated by TraceDef.tla; the oracle itself is validated against tests/step*.mal (StepFiles.tla).",
@@ -33,7 +35,8 @@ CLAIMED = {
     "C14": ("TLA+ structural equality (Values.StructEq) decides every ordered pair of a pool of values built along "
             "different construction paths, TLC checks StructEq is an equivalence on the pool, the real (= a b) is "
             "replayed for every pair, and the OBSERVED matrix is validated by TLC (TraceEq.tla) as an equivalence",
-            "Exhaustive over 72x72 ordered pairs incl. nil-valued maps, key-presence differences, kind confusions; "
+            "Exhaustive over 89x89 ordered pairs incl. nil-valued maps, key-presence differences, kind confusions, strings "
+            "built by str, integers beyond 2^53; "
             "plus trace validation of the observed relation (reflexive/symmetric/transitive over all triples).",
             "Trusts TLC, the harness bridge; pool-bounded.",
             "§7 C14 (and §2, §3)"),
@@ -61,8 +64,9 @@ CLAIMED = {
             "each history (model-dangerous ones flagged) replayed on the real code for every seed construction path, "
             "re-reading every earlier binding after every step, final values compared with Def.tla; long random "
             "histories recorded from the real code validated by TraceDef.tla",
-            "Exhaustive over histories of length 2 (quick) / 3 (thorough) of 21 sequence ops and 15 map ops x 18/11 "
-            "seed construction paths x {text, AST} routes.",
+            "Exhaustive over histories of length 2 (quick; thorough adds length 3 over the 19 ops that share or append) of "
+            "31 sequence ops and 15 map ops x 18/11 seed construction paths x {text, AST} routes; 14 programs on values "
+            "held by closures, atoms and rest-parameter lists (Def.SwapLoop models swap! as compare-and-set retry).",
             "Real slice capacities are decided by the Go runtime; the harness realises spare capacity through the "
             "seed paths and reports the (len,cap) pairs seen.",
             "§7 C02 (and §2, §3)"),
@@ -197,7 +201,8 @@ CLAIMED = {
             "step of 86 program shapes, checking a bound on post-cancel loop iterations and ended ~> done; the real context "
             "is cancelled by the loop-top hook at the k-th real loop iteration for 12 instants per shape and the real "
             "iteration count after cancellation is compared with the model's bound; deadline scenarios with a real timeout",
-            "Exhaustive model checking of all shapes in both modes; 86 shapes x 12 deterministic cancellation instants on the "
+            "Exhaustive model checking of all shapes in both modes; 149 shapes (incl. evaluation under eval, deref of a "
+            "cancelled future, a swap! retried for ever) x 12 deterministic cancellation instants x {plain, far deadline} on the "
             "real code (hook-driven, no wall clock in the verdict except a 5 s not-returned watchdog); 32 / 86 wall-clock "
             "deadline scenarios with >= 2.5 s slack, three attempts.",
             "Builtins are assumed short on small data (as the property states); the deadline part is coarse wall clock.",
